@@ -534,6 +534,15 @@ class ArrayBase(ParsableBase, MutableSequence, Serializable):
     def append(self, value):
         self.insert(len(self._items), value)
 
+    def extend(self, values):
+        self[len(self._items):] = values
+
+    def clear(self):
+        del self[:]
+
+    def reverse(self):
+        self._items.reverse()
+
     def _asdict(self):
         return self._items
 
